@@ -1,4 +1,14 @@
 CHECKS = {
+ "C15": {
+  "text": "Generated LTI / LTV systems with independently batched matrices against numpy einsum; op-list histories on one system object "
+          "(forward, reset, systime assignment, set_refpoint with every None-combination, reads of A..c2) against a reference integer "
+          "clock; sympy-generated smooth time-dependent f, g (lambdified to torch) with symbolic Jacobians, exact affine reproduction at "
+          "the reference point and a rigorous Taylor bound / second-order ratio test for the affine model; bmv/bvv/bvmv on broadcastable "
+          "batches. Exploration of the system / call-sequence space.",
+  "design_ref": "DESIGN.md section 3, C15",
+  "note": "Reference: numpy einsum + sympy derivatives (self-tested against finite differences). set_refpoint's effect on the clock is asserted only as documented.",
+  "technique": "property-based testing: Hypothesis-generated systems, expression trees and call histories against reference models",
+ },
  "C14": {
   "text": "Generated LTI / LTV LQ problems (batch 1..3, dims 1..6, horizon <= 10 quick / 20 thorough, unstable dynamics, time-varying PD cost "
           "with cross terms and condition up to 1e6, affine terms, random nominal inputs) solved inside HISTORIES on one system object "
